@@ -108,6 +108,221 @@ class ClassInfo:
         return '<Class %s>' % self.fq
 
 
+def _flags_to_for_else(fn):
+    """`found = False` / `for ...: ... found = True; break` / `if not found:
+    BODY` -> `for ... else: BODY`: the flag form of for-else.  Applied only
+    when the flag is set to True exactly before every `break` of that loop and
+    nowhere else, and read only by the `if` that directly follows the loop."""
+    def const(v, val):
+        return isinstance(v, ast.Constant) and v.value is val
+
+    def loop_breaks(loop):
+        """(statement list, index) of each break that leaves this loop."""
+        out = []
+
+        def rec(stmts):
+            for i, st in enumerate(stmts):
+                if isinstance(st, ast.Break):
+                    out.append((stmts, i))
+                if isinstance(st, (ast.For, ast.While, ast.FunctionDef,
+                                   ast.AsyncFunctionDef, ast.ClassDef)):
+                    continue
+                for fld in ('body', 'orelse', 'finalbody'):
+                    sub = getattr(st, fld, None)
+                    if isinstance(sub, list) and sub and isinstance(
+                            sub[0], ast.stmt):
+                        rec(sub)
+                for h in getattr(st, 'handlers', []) or []:
+                    rec(h.body)
+        rec(loop.body)
+        return out
+
+    for holder in ast.walk(fn):
+        for fld in ('body', 'orelse', 'finalbody'):
+            stmts = getattr(holder, fld, None)
+            if not (isinstance(stmts, list) and len(stmts) >= 3 and isinstance(
+                    stmts[0], ast.stmt)):
+                continue
+            i = 0
+            while i + 2 < len(stmts):
+                a, lp, c = stmts[i], stmts[i + 1], stmts[i + 2]
+                i += 1
+                if not (isinstance(a, ast.Assign) and len(a.targets) == 1 and
+                        isinstance(a.targets[0], ast.Name) and
+                        const(a.value, False) and
+                        isinstance(lp, (ast.For, ast.While)) and
+                        not lp.orelse and isinstance(c, ast.If) and
+                        not c.orelse):
+                    continue
+                flag = a.targets[0].id
+                t = c.test
+                if not (isinstance(t, ast.UnaryOp) and isinstance(
+                        t.op, ast.Not) and isinstance(t.operand, ast.Name) and
+                        t.operand.id == flag):
+                    continue
+                brk = loop_breaks(lp)
+                if not brk:
+                    continue
+                sets = []
+                ok = True
+                for lst, j in brk:
+                    p_ = lst[j - 1] if j > 0 else None
+                    if isinstance(p_, ast.Assign) and len(
+                            p_.targets) == 1 and isinstance(
+                            p_.targets[0], ast.Name) and p_.targets[
+                            0].id == flag and const(p_.value, True):
+                        sets.append(p_)
+                    else:
+                        ok = False
+                if not ok:
+                    continue
+                uses = [n for n in ast.walk(fn) if isinstance(n, ast.Name)
+                        and n.id == flag]
+                allowed = {id(a.targets[0]), id(t.operand)} | {
+                    id(p_.targets[0]) for p_ in sets}
+                if any(id(n) not in allowed for n in uses):
+                    continue
+                for lst, j in brk:
+                    del lst[j - 1]
+                lp.orelse = c.body
+                del stmts[i + 1]   # the `if not flag`
+                del stmts[i - 1]   # the `flag = False`
+                i -= 1
+
+
+def _loops_to_comprehensions(fn):
+    """`X = []` / `{}` / `set()` immediately followed by a loop whose only
+    effect is `X.append(e)` / `X.add(e)` / `X[k] = v` (under nested `for`s and
+    one-armed `if`s) -> `X = [e for ... if ...]` (set / dict comprehension
+    likewise).  The loop variables must not be read after the loop and X must
+    not be read inside it.  One spelling for rules that look at how a
+    collection is built."""
+    SCOPES = (ast.FunctionDef, ast.AsyncFunctionDef, ast.Lambda, ast.ClassDef)
+
+    def empty_kind(v):
+        if isinstance(v, ast.List) and not v.elts:
+            return 'list'
+        if isinstance(v, ast.Dict) and not v.keys:
+            return 'dict'
+        if isinstance(v, ast.Call) and isinstance(v.func, ast.Name) and \
+                not v.args and not v.keywords and v.func.id in (
+                'list', 'dict', 'set'):
+            return v.func.id
+        return None
+
+    def peel(loop, x):
+        """generators and the single leaf statement of the loop nest."""
+        gens, cur = [], loop
+        while True:
+            if isinstance(cur, ast.For) and not cur.orelse and len(
+                    cur.body) == 1:
+                gens.append(ast.comprehension(target=cur.target, iter=cur.iter,
+                                              ifs=[], is_async=0))
+                cur = cur.body[0]
+            elif isinstance(cur, ast.If) and not cur.orelse and len(
+                    cur.body) == 1 and gens:
+                gens[-1].ifs.append(cur.test)
+                cur = cur.body[0]
+            else:
+                break
+        if not gens:
+            return None
+        return gens, cur
+
+    for holder in ast.walk(fn):
+        for fld in ('body', 'orelse', 'finalbody'):
+            stmts = getattr(holder, fld, None)
+            if not (isinstance(stmts, list) and stmts and isinstance(
+                    stmts[0], ast.stmt)):
+                continue
+            i = 0
+            while i + 1 < len(stmts):
+                a, b = stmts[i], stmts[i + 1]
+                i += 1
+                if not (isinstance(a, ast.Assign) and len(a.targets) == 1 and
+                        isinstance(a.targets[0], ast.Name) and
+                        isinstance(b, ast.For)):
+                    continue
+                kind = empty_kind(a.value)
+                if kind is None:
+                    continue
+                x = a.targets[0].id
+                pe = peel(b, x)
+                if pe is None:
+                    continue
+                gens, leaf = pe
+                comp = None
+                if kind == 'dict' and isinstance(leaf, ast.Assign) and len(
+                        leaf.targets) == 1 and isinstance(
+                        leaf.targets[0], ast.Subscript) and isinstance(
+                        leaf.targets[0].value, ast.Name) and \
+                        leaf.targets[0].value.id == x:
+                    comp = ast.DictComp(key=leaf.targets[0].slice,
+                                        value=leaf.value, generators=gens)
+                    parts = [leaf.targets[0].slice, leaf.value]
+                elif kind in ('list', 'set') and isinstance(
+                        leaf, ast.Expr) and isinstance(
+                        leaf.value, ast.Call) and isinstance(
+                        leaf.value.func, ast.Attribute) and isinstance(
+                        leaf.value.func.value, ast.Name) and \
+                        leaf.value.func.value.id == x and len(
+                        leaf.value.args) == 1 and not leaf.value.keywords and \
+                        not isinstance(leaf.value.args[0], ast.Starred) and \
+                        leaf.value.func.attr == (
+                            'append' if kind == 'list' else 'add'):
+                    cls = ast.ListComp if kind == 'list' else ast.SetComp
+                    comp = cls(elt=leaf.value.args[0], generators=gens)
+                    parts = [leaf.value.args[0]]
+                if comp is None:
+                    continue
+                inner = parts + [g.iter for g in gens] + [
+                    c for g in gens for c in g.ifs]
+                if any(isinstance(n, ast.Name) and n.id == x
+                       for e in inner for n in ast.walk(e)):
+                    continue
+                if any(isinstance(n, (ast.Yield, ast.YieldFrom, ast.Await,
+                                      ast.NamedExpr) + SCOPES)
+                       for e in inner for n in ast.walk(e)):
+                    continue
+                tnames = {n.id for g in gens for n in ast.walk(g.target)
+                          if isinstance(n, ast.Name)}
+                if any(not isinstance(n, ast.Name) for g in gens
+                       for n in ast.walk(g.target)
+                       if not isinstance(n, (ast.Tuple, ast.List, ast.Store,
+                                             ast.Load, ast.Starred))):
+                    continue  # loop target is an attribute / subscript
+                inside = {id(n) for n in ast.walk(b)}
+                # a read of a loop variable elsewhere is harmless when another
+                # loop / comprehension (re)binds that name around it
+                for other in ast.walk(fn):
+                    if other is b or not isinstance(
+                            other, (ast.For, ast.ListComp, ast.SetComp,
+                                    ast.DictComp, ast.GeneratorExp)):
+                        continue
+                    tg = [other.target] if isinstance(other, ast.For) \
+                        else [g.target for g in other.generators]
+                    bound = {n.id for t in tg for n in ast.walk(t)
+                             if isinstance(n, ast.Name)}
+                    scope = (other.body if isinstance(other, ast.For)
+                             else [other])
+                    outer_it = set() if isinstance(other, ast.For) else {
+                        id(n) for n in ast.walk(other.generators[0].iter)}
+                    for st in scope:
+                        inside |= {id(n) for n in ast.walk(st) if isinstance(
+                            n, ast.Name) and n.id in bound and
+                            id(n) not in outer_it}
+                if any(isinstance(n, ast.Name) and n.id in tnames and
+                       isinstance(n.ctx, ast.Load) and
+                       id(n) not in inside for n in ast.walk(fn)):
+                    continue  # a loop variable is read after the loop
+                ast.copy_location(comp, a.value)
+                comp.end_lineno = getattr(b, 'end_lineno', b.lineno)
+                a.value = comp
+                a.end_lineno = comp.end_lineno
+                stmts.remove(b)
+                i -= 1
+
+
 def _inline_adjacent_temporaries(fn):
     """`t = e` immediately followed by the only statement that reads `t` ->
     that statement with `e` in place of `t` (repeated until nothing changes).
@@ -250,6 +465,8 @@ class _PolarityNormaliser(ast.NodeTransformer):
     # -- single-use temporaries ------------------------------------------------
     def visit_FunctionDef(self, n):
         self.generic_visit(n)
+        _flags_to_for_else(n)
+        _loops_to_comprehensions(n)
         _inline_adjacent_temporaries(n)
         return n
 
@@ -279,6 +496,32 @@ class _PolarityNormaliser(ast.NodeTransformer):
                     a.end_lineno = getattr(n, 'end_lineno', n.lineno)
                     out.append(a)
                 return out
+        return n
+
+    def visit_Call(self, n):
+        """`dict(a=x, b=y)` -> `{'a': x, 'b': y}` (the builtin called with
+        keyword items only): one spelling for literal mappings."""
+        self.generic_visit(n)
+        if isinstance(n.func, ast.Name) and n.func.id == 'dict' and \
+                not n.args and n.keywords and all(
+                k.arg is not None for k in n.keywords) and \
+                not self.dict_rebound:
+            d = ast.Dict(keys=[ast.copy_location(ast.Constant(k.arg), k.value)
+                               for k in n.keywords],
+                         values=[k.value for k in n.keywords])
+            return ast.copy_location(d, n)
+        return n
+
+    dict_rebound = False
+
+    def visit_Module(self, n):
+        self.dict_rebound = any(
+            isinstance(x, ast.Name) and x.id == 'dict' and isinstance(
+                x.ctx, ast.Store) or isinstance(x, ast.arg) and x.arg == 'dict'
+            or isinstance(x, (ast.FunctionDef, ast.ClassDef)) and
+            x.name == 'dict' or isinstance(x, ast.alias) and
+            (x.asname or x.name) == 'dict' for x in ast.walk(n))
+        self.generic_visit(n)
         return n
 
     def visit_IfExp(self, n):
@@ -698,8 +941,25 @@ class Project:
     def func(self, rel, qualname):
         fi = self.functions.get('%s::%s' % (rel, qualname))
         if fi is None:
+            fi = self._moved_func(rel, qualname)
+        if fi is None:
             raise AnalysisError('anchor function %s::%s not found' % (rel, qualname))
         return fi
+
+    def _moved_func(self, rel, qualname):
+        """A module-level function moved into a class of the same module as a
+        (static) method, or a method moved out to module level, keeps its
+        simple name: when exactly one non-nested function of the module has
+        it, that is the anchor."""
+        if '.' in qualname and not qualname.split('.')[-1].startswith('_'):
+            return None  # public methods are looked up by class on purpose
+        simple = qualname.split('.')[-1]
+        if simple.startswith('__'):
+            return None
+        hits = [f for k, f in self.functions.items()
+                if f.module.rel == rel and f.parent is None and
+                not f.is_lambda and f.name == simple]
+        return hits[0] if len(hits) == 1 else None
 
     def try_func(self, rel, qualname):
         return self.functions.get('%s::%s' % (rel, qualname))
